@@ -755,6 +755,28 @@ class Enum:
                           z3.And(self.cb(i + 1) == self.cb(i) + z3.If(zbool(self.g(i)), 1, 0), self.cb(i) >= 0, self.cb(i) <= i))
 
     @staticmethod
+    def link_conditional(ctx, e1, e2):
+        """The uniqueness meta-lemma as an implication (no hypothesis to prove now, so it is path independent): IF the
+        ranges are equal and the predicates agree on the range THEN the two enumerations coincide."""
+        if e1 is e2:
+            return
+        done = ctx.__dict__.setdefault("_enum_cond_links", set())
+        key = (id(e1), id(e2))
+        if key in done or (key[1], key[0]) in done:
+            return
+        done.add(key)
+        k, j, i = z3.Int("k!cl"), z3.Int("j!ax"), z3.Int("i!ax")
+        hyp = z3.And(zint(e1.n) == zint(e2.n),
+                     z3.ForAll([k], z3.Implies(in_range(k, e1.n), zbool(e1.g(k)) == zbool(e2.g(k)))))
+        ctx.axioms.append(z3.Implies(hyp, z3.And(
+            e1.cnt == e2.cnt,
+            z3.ForAll([j], e1.idx(j) == e2.idx(j), patterns=[e1.idx(j)]),
+            z3.ForAll([j], e1.idx(j) == e2.idx(j), patterns=[e2.idx(j)]),
+            z3.ForAll([i], e1.rk(i) == e2.rk(i), patterns=[e1.rk(i)]),
+            z3.ForAll([i], e1.rk(i) == e2.rk(i), patterns=[e2.rk(i)]))))
+        ctx.used_models.add("meta-lemma: increasing enumerations of equivalent predicates over one range coincide")
+
+    @staticmethod
     def link_equivalent(ctx, e, cache):
         """Uniqueness of enumerations (meta-lemma, by induction on the range): two increasing enumerations
         of extensionally equal predicates over the same range coincide.  Applied only when the equivalence
@@ -794,6 +816,8 @@ def safe_forall(vars_, body, patterns, fallback):
     for pats in (patterns, fallback):
         if not pats:
             continue
+        if any(has_ite(p_) for p_ in pats):
+            continue            # z3 rejects 'if' inside a trigger (it would only print a warning and drop it)
         try:
             return z3.ForAll(vars_, body, patterns=pats)
         except z3.Z3Exception:
